@@ -331,11 +331,9 @@ impl ExpansionPiece {
         }
     }
 
-    const fn len(&self) -> usize {
-        match self {
-            Self::Unsplittable(s) => s.len(),
-            Self::Splittable(s) => s.len(),
-        }
+    /// Returns the length of the piece, in characters (not bytes).
+    fn len(&self) -> usize {
+        self.as_str().chars().count()
     }
 
     fn make_unsplittable(self) -> Self {
